@@ -222,7 +222,7 @@ pub fn c06_graph(out: &mut Out, ag: &AG, rng: &mut Rng) {
                 out.rec("C06", "matrix", HISTS[h], ag, f);
             }
         }
-        for h in 0..2 {
+        for h in 0..3 {
             macro_rules! csrenc { ($Ty:ty) => {{
                 let (g, fwd) = build_csr::<$Ty, i64>(ag, h, rng);
                 let inv = inv_of(&fwd);
